@@ -244,10 +244,10 @@ class Report:
         return v
 
     def floor(self, name, measured, floor):
+        """Instance floors are enforced in finish(): a missed floor with no violation reported is an
+        ANALYSIS-ERROR (the rule would pass vacuously); when violations were found they explain the
+        missing instances and are reported instead."""
         self.floors.append((name, measured, floor))
-        if measured < floor:
-            raise AnalysisError(f'instance floor missed: {name}: analysed {measured} < {floor} '
-                                f'(rule would pass vacuously)')
 
     def note(self, line):
         self.analysed.append(line)
@@ -255,6 +255,10 @@ class Report:
     # -- finish
     def finish(self, ledger: Ledger):
         wall = time.time() - self.t0
+        missed = [(n, m, f) for n, m, f in self.floors if m < f]
+        if missed and not self.violations:
+            n, m, f = missed[0]
+            raise AnalysisError(f'instance floor missed: {n}: analysed {m} < {f} (rule would pass vacuously)')
         unlisted, listed = [], []
         for v in self.violations:
             k = ledger.match(self.prop, v.key)
